@@ -142,6 +142,14 @@ func (q Req) Build() (*http.Request, context.CancelFunc) {
 			// the context is cancelled at the moment the reader fails
 			fr2 := &cancelOnFail{fr, c}
 			r.Body = fr2
+		case "cancelled-before":
+			// the request context is already cancelled when the handler starts (the client went away while the
+			// request was queued); the body, if any, reads fine
+			ctx, c := context.WithCancel(r.Context())
+			c()
+			r = r.WithContext(ctx)
+			fr.failAt = len(fr.data) + 1
+			r.Body = fr
 		case "cancel-only":
 			// the request context is cancelled once FailAt bytes were delivered, but the body
 			// itself keeps reading without error up to EOF
